@@ -33,6 +33,18 @@ var realU = []string{
 	"net/rpc, encoding/gob — real standard library over simulated connections",
 }
 
+var realA = []string{
+	"generated archetypes (systems/*/X.go) — real, unmodified",
+	"distsys core (MPCalContext Run/commit/abort, ArchetypeInterface Read/Write/Call/Goto, LocalArchetypeResource) — real, instrumented by overlay",
+	"distsys/tla values and operators — real",
+}
+
+var stubA = []string{
+	"environment parameters of the archetypes (network, failure detectors, timers, channels, files): verif/env resources holding the spec's global variables and implementing each mapping macro of the spec literally and transactionally",
+	"fairness counter: replaced through its public seam by the simulator's gate (one attempt = one atomic step) and choice oracle (every either/with is a stream decision)",
+	"time and network: abstracted exactly as the spec abstracts them",
+}
+
 var stubU = []string{
 	"TCP/IP and sockets: verif/sim/snet in-memory byte streams",
 	"wall clock and timers: testing/synctest fake clock",
@@ -131,6 +143,14 @@ var checks = []Check{
 		Stub:        append([]string{"monitored archetypes: harness-built looping archetypes on the real runtime"}, stubU...),
 		Assumptions: []string{"settling time = 2 polling intervals + 2 time-outs + 5 ms (one poll to notice, one call to time out, dial)", "no task stalls are injected (stalls longer than the time-out legitimately produce false suspicions)"},
 		MustProbe:   []string{"archetype_ended_done", "archetype_ended_error", "archetype_ended_panic", "alive_reported", "failure_reported_after_end"}, MinRunsForProbes: 1000,
+	},
+	{
+		ID: "C15", Pkg: "checks/c15", Instr: coreInstr,
+		QuickRuns: 60000, ThoroughRuns: 5000000, QuickBudgetS: 45, ThoroughBudgetS: 900, ShrinkS: 30,
+		Rule: "one run = the generated AServer and 1-8 AClient archetypes of systems/locksvc on the real runtime in the spec world (network = function from nodes to bags, ReliableLink macro to the letter; half of the runs deliver each mailbox in arrival order instead); the stream picks which archetype takes its next label and which message a read obtains; after every committed step: at most one hasLock, at most one client between critical section and unlock, every grant goes to the head of the server's queue, to a client with an outstanding request, in the order lock requests were received, never twice; no assertion fails; at the end every client has finished; non-trivial = at least 2 clients; distinct = distinct interleaving digests",
+		Real: realA, Stub: stubA,
+		Assumptions: []string{"atomicity of a critical section is by construction at this level (delivered by the runtime: C01)", "one pass lock/critical-section/unlock per client, as in the spec"},
+		MustProbe:   []string{"three_or_more_clients", "fifo_network", "bag_network"}, MinRunsForProbes: 1000,
 	},
 }
 
